@@ -7,7 +7,7 @@ META = dict(
             "rank 1..3, extents <= 3, int8/int16/int32/float64, strides <= 2, unlimited first dimension; geometry enumerated (curated + seed-derived), all values symbolic"],
     stubs=["stdio = models/memio.c", "error stack = codes only", "malloc never fails", "sprintf model (E9)", "relational pointer comparisons in mfhdf lowered to differences (E8, "
            "located with clang's AST, regenerated every run)"],
-    outside=["SDend/SDstart round trip for more than the one curated 2x3 instance", "ranks > 3, extents > 3", "netCDF/CDF file flavours"],
+    outside=["SDend/SDstart round trip in the quick tier (one curated 2x3 instance in the thorough tier: about 20 minutes)", "ranks > 3, extents > 3", "netCDF/CDF file flavours"],
     manifest=dict(
         level="Bounded model checking (CBMC/SAT) of the real mfhdf SD stack (mfsd.c, putget.c, putgetg.c, var.c, ...) over the real libhdf on memio within one session: for each "
               "concrete geometry the solver decides for ALL data and fill values that a read returns the last written value of every selected cell in row-major order, that "
@@ -41,7 +41,7 @@ def inst(name, dims, nt, w1, r1, usestride=0, second=None, fillmode=1, userfill=
              defs=d, unwind=5000, kind="S", timeout=2400, mf=True, lower=lower, symbolic="data values, fill value",
              bound="dims %s %s w1=%s r1=%s" % (dims, nt, w1, r1), group="C03.S1", hang_is_violation=True)
 
-def curated():
+def curated(tier="quick"):
     S = []
     S.append(inst("2x3-full", (2, 3), "i32", ((0, 0), (1, 1), (2, 3)), ((0, 1), (1, 1), (2, 2))))
     S.append(inst("2x3-partial-fill", (2, 3), "i16", ((1, 1), (1, 1), (1, 2)), ((0, 0), (1, 1), (2, 3)), bad=(1, (1, 2), (1, 2))))
@@ -49,12 +49,12 @@ def curated():
     S.append(inst("rank1-two-writes", (3,), "f64", ((0,), (1,), (2,)), ((0,), (1,), (3,)), second=((1,), (2,)), userfill=0))
     S.append(inst("unlimited", (2, 2), "i32", ((1, 0), (1, 1), (1, 2)), ((0, 0), (1, 1), (2, 2)), unlim=1))
     S.append(inst("rank3", (2, 2, 2), "i16", ((0, 1, 0), (1, 1, 1), (2, 1, 2)), ((0, 0, 0), (1, 1, 1), (2, 2, 2))))
-    if True:  # SDend + SDstart round trip (needs the H4_VERIF hook in hdf_read_dims, see DESIGN.md 9.1)
+    if tier != "quick" or os.environ.get("H4V_C03_REOPEN") == "1":  # SDend + SDstart round trip (needs the H4_VERIF hook in hdf_read_dims; ~20 min: thorough tier only)
         S.append(inst("2x3-reopen", (2, 3), "i16", ((0, 0), (1, 1), (2, 2)), ((0, 0), (1, 1), (2, 3)), reopen=1))
     return S
 
 def plan(ctx, tier, seed):
-    hs = curated()
+    hs = curated(tier)
     rng = random.Random(300 + seed)
     for i in range(2 if tier == "quick" else 60):
         rank = rng.randint(1, 3)
